@@ -140,6 +140,10 @@ func (q *MultiOpQueryer) queryBatch(inputs []*requests.Request) ([]map[string]in
 			return nil, resp.Errors
 		}
 
+		if resp.Data == nil {
+			return nil, missingDataError(q.url)
+		}
+
 		results[i] = resp.Data
 	}
 
@@ -165,6 +169,11 @@ func (q *MultiOpQueryer) queryBatch(inputs []*requests.Request) ([]map[string]in
 			errs = append(errs, resp.Errors...)
 			continue
 		}
+		// neither data nor errors is not an answer
+		if resp.Data == nil {
+			errs = append(errs, missingDataError(q.url))
+			continue
+		}
 		results[toFetchIndexes[i]] = resp.Data
 	}
 
@@ -173,4 +182,8 @@ func (q *MultiOpQueryer) queryBatch(inputs []*requests.Request) ([]map[string]in
 	}
 
 	return results, nil
+}
+
+func missingDataError(url string) *gqlerrors.Error {
+	return gqlerrors.NewError(gqlerrors.UndefinedError, fmt.Errorf("response from %s carries neither data nor errors", url))
 }
